@@ -185,6 +185,8 @@ def _pick_sel14(rng, m):
 
 
 def oracle_requests(c, r):
+    if c["op"] == "c14.perm":
+        return [("c14.both", c["payload"][0])]
     if c["op"] != "c14.hist":
         return [(c["op"], c["payload"])]
     if not isinstance(r, list):
@@ -202,6 +204,9 @@ def gen_histories(rng, count):
 def generate(tier, seed):
     cases = _generate(tier, seed)
     cases.extend(gen_histories(random.Random(1000003 * seed + 14014), 550 if tier == "quick" else 7000))
+    for pc in c06.gen_permuted(random.Random(1000003 * seed + 140014), 600 if tier == "quick" else 6000):
+        if pc["payload"][0][0] in (0, 1):          # strict shapes: soc / soi
+            cases.append(case("c14.perm", pc["payload"], **pc["tags"]))
     rng = random.Random(1000003 * seed + 1414)
     out = []
     for c in cases:
@@ -279,6 +284,9 @@ def impl(c):
     op, pl = c["op"], c["payload"]
     if op == "c14.hist":
         return c06.hist_run(pl, _call_rule14, _default_sel14)
+    if op == "c14.perm":
+        ip, po, pm = pl
+        return [c06._win(fns[nm], c06.build_permuted(ip, po, pm)) for nm in NAMES]
     if op == "c14.both":
         return [c06._win(fns[nm], c06.build(pl)) for nm in NAMES]
     return c06._win(fns[op.split(".")[1]], c06.build(pl))
@@ -289,6 +297,11 @@ def judge(c, r, mres):
         return c06.judge_history(c, r, mres, NAMES, 2, "fallback_spec / bucklin_spec / *_regroup on the current multiplicity table")
     m = mres[0]
     names = NAMES
+    if c["op"] == "c14.perm":
+        j = judge({"op": "c14.both", "payload": c["payload"][0], "tags": {}}, r, mres)
+        if j:
+            j["reason"] = "with %s (same ballots and multiplicities), " % c["tags"].get("gen", "permuted storage") + j["reason"]
+        return j
     if c["op"] != "c14.both":
         r, m, names = [r], [m], [c["op"].split(".")[1]]
     if len(r) != len(names) or len(m) != len(names):
@@ -305,7 +318,7 @@ def judge(c, r, mres):
 
 
 def nontrivial(c, r, m):
-    if c["op"] == "c14.hist":
+    if c["op"] in ("c14.hist", "c14.perm"):
         return True
     ip = c["payload"]
     return len(ip[1]) >= 2 and len(ip[4]) >= 2 and any(k > 1 for _, k in ip[4])
@@ -341,6 +354,8 @@ def _exact_half_before(ip, d):
 def stats(c, r, m):
     if c["op"] == "c14.hist":
         return c06.history_stats(c, r, m, NAMES, 2)
+    if c["op"] == "c14.perm":
+        return [c["tags"].get("gen", "storage-order"), "storage-order on type=%s" % DT[c["payload"][0][0]]]
     ip = c["payload"]
     out = ["type=%s" % DT[ip[0]], "m=%d" % len(ip[1]), "ballots=%s" % (len(ip[4]) if len(ip[4]) <= 3 else ">3")]
     if c["tags"].get("gen"):
@@ -380,6 +395,8 @@ def stats(c, r, m):
 def describe(c):
     if c["op"] == "c14.hist":
         return c06.describe_history(c, NAMES)
+    if c["op"] == "c14.perm":
+        return c06.describe(dict(c, op="c06.perm"))
     ip = c["payload"]
     return {"op": c["op"], "data_type": DT[ip[0]], "alternatives": ip[1],
             "ballots": [{"order": o, "multiplicity": k} for o, k in ip[4]],
@@ -387,6 +404,8 @@ def describe(c):
 
 
 def shrink(c):
+    if c["op"] == "c14.perm":
+        return
     if c["op"] == "c14.hist":
         for c2 in c06.shrink_history(c):
             if all(a[0] == 0 or all(rr < 2 for rr, _ in a[1]) for a in c2["payload"]):
